@@ -1,6 +1,7 @@
 package main
 
 import (
+	crand "crypto/rand"
 	_ "embed"
 	"encoding/json"
 	"fmt"
@@ -197,4 +198,52 @@ func attrValue(g *Rng, lm uint) *big.Int {
 	default:
 		return g.bits(1 + g.intn(int(lm)))
 	}
+}
+
+// key4096 builds a key pair with a 4096-bit modulus, the only default parameter set in which the
+// message length differs from the hash length (Lm = 512, Lh = 256). The factors are random primes
+// (not safe primes: searching those takes minutes); signing, issuance and verification only need
+// the group order p'q' to be coprime to the signature exponents, which the signer checks.
+func key4096(id string, nattr int) *KeyPair {
+	ck := fmt.Sprintf("%s/4096/%d", id, nattr)
+	if v, ok := keyCache.Load(ck); ok {
+		return v.(*KeyPair)
+	}
+	prime := func() *big.Int {
+		for {
+			p := must(crand.Prime(crand.Reader, 2048))
+			if p.Bit(1) == 1 { // p = 3 mod 4
+				return new(big.Int).SetBytes(p.Bytes())
+			}
+		}
+	}
+	var p, q *big.Int
+	for {
+		p, q = prime(), prime()
+		if new(big.Int).Mul(p, q).BitLen() == 4096 && p.Cmp(q) != 0 {
+			break
+		}
+	}
+	sk := must(gabikeys.NewPrivateKey(p, q, "", 0, time.Unix(2000000000, 0)))
+	n := sk.N
+	rnd := func(bits int) *big.Int {
+		b := make([]byte, bits/8)
+		crand.Read(b)
+		return new(big.Int).SetBytes(b)
+	}
+	s := rnd(4090)
+	s.Mul(s, s).Mod(s, n)
+	z := new(big.Int).Exp(s, rnd(4000), n)
+	var rs []*big.Int
+	for i := 0; i <= nattr; i++ {
+		rs = append(rs, new(big.Int).Exp(s, rnd(4000), n))
+	}
+	pk := must(gabikeys.NewPublicKey(n, z, s, nil, nil, rs, "", 0, time.Unix(2000000000, 0)))
+	if pk.Params == nil || pk.Params.Lm == pk.Params.Lh {
+		panic("key4096: unexpected parameters")
+	}
+	pk.Issuer = id
+	kp := &KeyPair{id: id, sk: sk, pk: pk}
+	keyCache.Store(ck, kp)
+	return kp
 }
